@@ -4,6 +4,7 @@ import (
 	"fmt"
 	"hash/fnv"
 	"reflect"
+	"regexp"
 	"sort"
 	"strings"
 	"time"
@@ -222,6 +223,11 @@ func c13Canon(out string) string {
 	if !strings.Contains(out, "|") {
 		return out
 	}
+	// whitespace around the whole output stays where it is
+	if core := strings.TrimSpace(out); core != out {
+		i := strings.Index(out, core)
+		return out[:i] + c13Canon(core) + out[i+len(core):]
+	}
 	parts := strings.Split(out, "|")
 	head := parts[0]
 	rest := parts[1:]
@@ -242,14 +248,14 @@ func init() {
 	engine.Register(&engine.Prop{
 		ID: "C13",
 		Shards: func(th bool) []string {
-			s := []string{"paths", "env"}
+			s := []string{"paths", "cross", "env"}
 			for i := 0; i < c13NOps(); i++ {
 				s = append(s, fmt.Sprintf("hist:cold:%d", i), fmt.Sprintf("hist:warm:%d", i))
 			}
 			return s
 		},
 		Run:  c13Run,
-		Rule: "programs: a 35-template corpus covering every construct + a family of hash literals (1..4 entries, identifier/string/duplicate keys, side-effecting values), map loops, data maps, method calls on receivers of two dynamic types, a time value printed with and without a TIME_FORMAT in the context, a template that renders itself as a partial and fails inside a helper block of the inner execution, empty array/hash literals that are kept and written to, failing templates and templates that do not parse. (paths) every program x 2 data sets: fresh parse, 3 repeated executions of one parsed template, Clone, cache cold, cache warm, cache off again — all (out, err, side-effect log) equal; deep structural hash (reflection over every field, cycle-safe) of the parsed program equal before and after every execution. (env) every map-iteration call made during an execution is an environment choice point (runtime overlay): all single deviations (two in thorough) from the default order give the same (out, err, log); for-over-map output is compared as a multiset. (hist) explicit enumeration of histories over {fresh parse+exec, exec of a long-lived template, Clone+exec, Render through the cache, toggle CacheEnabled, CacheSet} x 6 templates (a partial whose feeder text depends on the context, ok with an empty hash literal that is written to, failing inside a block on line 3, failing at top level, method call, one that does not parse) x 2 data sets, from a cold and a warm cache; after every operation the result equals the pristine reference for (text, data), every live template's program hash is unchanged and a cached template was parsed from its key. Non-trivial: histories with >=2 operations / programs with a map or side effect.",
+		Rule: "programs: a 35-template corpus covering every construct + a family of hash literals (1..4 entries, identifier/string/duplicate keys, side-effecting values), map loops, data maps, method calls on receivers of two dynamic types, a time value printed with and without a TIME_FORMAT in the context, a template that renders itself as a partial and fails inside a helper block of the inner execution, empty array/hash literals that are kept and written to, failing templates and templates that do not parse. (paths) every program x 2 data sets: fresh parse, 3 repeated executions of one parsed template, Clone, cache cold, cache warm, cache off again — all (out, err, side-effect log) equal; deep structural hash (reflection over every field, cycle-safe) of the parsed program equal before and after every execution. (cross) every probe template (contentOf of every block name the corpus defines, unknown variables / functions, a time, a partial, a regexp match) renders the same before and after every corpus program was executed with fresh contexts, cache off and on; (paths, cache) a text differing only in surrounding whitespace is another template: from the warm cache it renders what a fresh parse of it renders. (env) every map-iteration call made during an execution is an environment choice point (runtime overlay): all single deviations (two in thorough) from the default order give the same (out, err, log); for-over-map output is compared as a multiset. (hist) explicit enumeration of histories over {fresh parse+exec, exec of a long-lived template, Clone+exec, Render through the cache, toggle CacheEnabled, CacheSet} x 6 templates (a partial whose feeder text depends on the context, ok with an empty hash literal that is written to, failing inside a block on line 3, failing at top level, method call, one that does not parse) x 2 data sets, from a cold and a warm cache; after every operation the result equals the pristine reference for (text, data), every live template's program hash is unchanged and a cached template was parsed from its key. Non-trivial: histories with >=2 operations / programs with a map or side effect.",
 		Bound: func(th bool) string {
 			if th {
 				return "histories of length <=4 over the full 56-operation alphabet; all pairs of map-order deviations"
@@ -530,6 +536,25 @@ func c13Run(t *engine.T, shard string) {
 							return "", c13Loose("program-mutated", "%s: cached program differs from a fresh parse (step %d)", what, i)
 						}
 					}
+					// a text that differs only in whitespace around it is another template: served from the (warm) cache it
+					// renders what a fresh parse of that text renders, and the original still renders as before
+					for _, v := range []string{"\n" + src, src + "\n", " " + src + " \n"} {
+						plush.CacheEnabled = false
+						want := c13Fresh(v, d)
+						plush.CacheEnabled = true
+						for pass := 0; pass < 2; pass++ {
+							e := &c13Env{}
+							out, err := plush.Render(v, e.context(d))
+							if r := (c13Result{c13Canon(out), errStr(err), strings.Join(e.log, ",")}); r != want {
+								return "", c13Loose("nondeterministic", "cache warm with %q, rendering %q (pass %d): %+v differs from a fresh parse of that text %+v", src, v, pass+1, r, want)
+							}
+						}
+						e := &c13Env{}
+						out, err := plush.Render(src, e.context(d))
+						if f := check("original after its whitespace variant was cached", c13Result{c13Canon(out), errStr(err), strings.Join(e.log, ",")}, nil); f != nil {
+							return "", f
+						}
+					}
 					plush.CacheEnabled = false
 					if f := check("cache off again", c13Fresh(src, d), nil); f != nil {
 						return "", f
@@ -538,6 +563,47 @@ func c13Run(t *engine.T, shard string) {
 						return "same-error", nil
 					}
 					return "same-output", nil
+				})
+			}
+		}
+	case "cross":
+		// executions are independent: what a probe template renders (with its own fresh context) does not depend on
+		// which other template was executed before it
+		names := map[string]bool{}
+		re := regexp.MustCompile(`contentFor\("([^"]+)"`)
+		for _, src := range c13Programs() {
+			for _, m := range re.FindAllStringSubmatch(src, -1) {
+				names[m[1]] = true
+			}
+		}
+		probes := []string{`<%= y %>`, `<%= h %>|<%= f(1) %>`, `[<%= when %>]`, `<%= partial("pd", {"a": 1, "b": 2, "c": 3}) %>`, `<%= sv ~= "^a" %>`, `<%= {"a": 1}["a"] %>|<%= len([1, 2]) %>`}
+		for n := range names {
+			probes = append(probes, `<%= contentOf("`+n+`") %>`, `<%= contentOf("`+n+`") { %>default<% } %>`)
+		}
+		sort.Strings(probes)
+		for _, a := range c13Programs() {
+			for _, b := range probes {
+				a, b := a, b
+				t.Case(fmt.Sprintf("cross probe %q after %q", b, a), true, func() (string, *engine.Fail) {
+					plush.CacheEnabled = false
+					before := c13Fresh(b, 0)
+					c13Fresh(a, 0)
+					c13Fresh(a, 1)
+					after := c13Fresh(b, 0)
+					if before != after {
+						return "", c13Loose("nondeterministic", "probe renders %+v before and %+v after another template was executed", before, after)
+					}
+					plush.VerifCacheReset()
+					plush.CacheEnabled = true
+					defer func() { plush.CacheEnabled = false; plush.VerifCacheReset() }()
+					e := &c13Env{}
+					plush.Render(a, e.context(1))
+					e2 := &c13Env{}
+					out, err := plush.Render(b, e2.context(0))
+					if r := (c13Result{c13Canon(out), errStr(err), strings.Join(e2.log, ",")}); r != before {
+						return "", c13Loose("nondeterministic", "probe renders %+v after another template was rendered through the cache, alone it renders %+v", r, before)
+					}
+					return "independent", nil
 				})
 			}
 		}
